@@ -57,6 +57,11 @@ def c01_runs(tier):
     r.append(mt_run('event', 'harness/event.c', ['event.unregister-self-in-handler',
                                                  'event.unregister-sibling-in-handler'],
                     preempt=0, E=3, P=0, Q=0, method=1, owner=2, ops=3, selfpost=1))
+    r.append(mt_run('event+fd.same-batch', 'harness/event.c',
+                    ['event.handler-unregisters-fd-of-same-batch', 'event.fd-in-same-batch-handled'],
+                    preempt=2, E=1, P=1, Q=1, method=1, withfd=2))
+    r.append(mt_run('event+fd.same-batch.poll', 'harness/event.c',
+                    ['event.handler-unregisters-fd-of-same-batch'], preempt=1, E=1, P=1, Q=1, method=3, withfd=2))
     r.append(mt_run('raw-event', 'harness/eventraw.c', ['raw.unregister-in-handler'], preempt=1, R=2, T=0, N=0,
                     unreg=1, ownerpost=1, cfg=0 if q else 2))
     r.append(mt_run('signal', 'harness/signal.c', ['signal.unregister-self-in-handler'], preempt=1, I=2, T=1, D=2,
@@ -91,6 +96,9 @@ def c03_runs(tier):
                    symtruth=1 if q else 2, patterns=2)
     r += per_method('reuse.huperr', [1, 2] if q else [0, 1, 2, 3], cv + ['fd.err-handler-ran'], K=1, R=3,
                     acts=A_UNREG | A_REG, A=2, L=2 if q else 3, symtruth=2, patterns=2)
+    # a registration attempt that fails (descriptor number closed at that moment, reused afterwards)
+    r += per_method('try-fails', [1, 2, 3] if q else [0, 1, 2, 3], ['C07.register_try-fails', 'fd.in-handler-ran'],
+                    K=2, R=2, acts=A_UNREG | A_TRY, A=2, L=2, symtruth=1, patterns=2, faults=1)
     return r
 
 
@@ -108,12 +116,19 @@ def c04_runs(tier):
     # interrupted waits: part of the timeout has elapsed when EINTR comes back
     r += per_method('eintr', [0, 1] if q else [0, 1, 2, 3], ['timer.handler-ran', 'env.eintr-injected'], K=1, T=1, R=4,
                     acts=0, A=0, L=0, symtruth=0, symtime=2, patterns=1, faults=2, eintr=2)
+    # the earliest expiry the loop sleeps on is the root of the timer store: its order invariant
+    for N in (7, 8):
+        r.append(timers_run('store.step.N%d' % N, covers=['C05.step-unregister'], mode=1, N=N, sym=3))
     return r
 
 
 def c06_runs(tier):
     q = tier == 'quick'
-    return per_method('tasks', [0, 2] if q else [0, 1, 2, 3],
+    # a loop with tasks and a timer only (no descriptor registered at all)
+    nofd = per_method('tasks.no-fd', [0, 1, 3] if q else [0, 1, 2, 3],
+                      ['task.handler-ran', 'C06.deferred-reregistration-observed', 'timer.handler-ran'],
+                      K=0, T=1, J=2, R=3, acts=A_TASK, A=2, L=3, symtruth=0)
+    return nofd + per_method('tasks', [0, 2] if q else [0, 1, 2, 3],
                       ['task.handler-ran', 'C06.deferred-reregistration-observed', 'timer.handler-ran',
                        'fd.in-handler-ran'],
                       K=1, T=1, J=2 if q else 3, R=3, acts=A_TASK, A=2, L=3 if q else 4, symtruth=0, patterns=1)
@@ -159,6 +174,10 @@ def c05_runs(tier):
         x['max_split'] = 3
         r.append(x)
     r[-1]['covers'] = r[-1]['covers'] + ['C05.radix-level-removed']
+    # timers registered/unregistered from descriptor handlers while the loop's kernel-timer
+    # optimisation is engaged (independence of timers from each other through the main loop)
+    r += per_method('loop.timerfd-cycle', [0], ['C04.timerfd-armed', 'timer.handler-ran'], K=1, T=2, R=8,
+                    acts=A_TIMER, A=1, L=1, symtruth=0, symtime=2, patterns=1)
     return r
 
 
